@@ -582,6 +582,7 @@ package constraint
 //@   ensures panics <==> old(dom(c.uniqueIdx, i.enumItemValue))
 //@   ensures normal ==> result == old(len(c.items)) && len(c.items) == old(len(c.items)) + 1 && c.items[result].value == i.value && c.items[result].jsonType == i.jsonType && c.items[result].comment == i.comment
 //@   ensures normal ==> (forall j :: 0 <= j && j < old(len(c.items)) ==> c.items[j] == old(c.items[j]))
+//@   ensures c.items.$arr == old(c.items.$arr) || fresh(c.items)
 //@   ensures panics ==> errWF(pv)
 
 //@ func (AllOf).SchemaNames()
